@@ -673,6 +673,8 @@ func runC07(r *an.Run) {
 			}
 			loopVisitsAll(o, p.Func(hs+"circuitMap.trimAllOpenCircuits"), `activeChannels|FetchAllOpenChannels`)
 		})
+
+	retrySafeClosures(r, []string{"htlcswitch"}, `^htlcswitch\.circuitMap\.`, 6, "the circuit map commits, opens, trims and deletes circuits in kvdb transactions (kvdb.Batch retries by design); a closure that continues from an aborted run writes other circuits than the ones its in-memory mirror is updated with")
 }
 
 // closureCallTruth is the fact "a call of a local function value with an
